@@ -179,7 +179,7 @@ def run(ck, m):
                 asg = next((s for s in fn.body if isinstance(s, ast.Assign) and norm(s.targets[0]) == "render_method"), None)
                 ck.need(asg is not None, f"{q}: `render_method = ...` not found")
                 n_r += 1
-                v = asg.value
+                v = trace(fn, asg.value, keep=("method",))        # (through locals such as `effective = method or self._render_method`)
                 whole_lower = (isinstance(v, ast.Call) and isinstance(v.func, ast.Attribute) and v.func.attr == "lower" and isinstance(v.func.value, ast.BoolOp)
                                and isinstance(v.func.value.op, ast.Or) and [norm(x) for x in v.func.value.values] == ["method", "self._render_method"])
                 reads_effective = "self._render_method" in norm(v) and norm(v).replace(" ", "").find("method") >= 0
